@@ -38,26 +38,53 @@ type Case struct {
 }
 
 type Res struct {
-	Pos   int    `json:"pos"`             // position (1-based) of the returned entry, 0 = none
-	Vid   int    `json:"vid"`             // version string id of the returned version, 0 = none
+	Pos   int    `json:"pos,omitempty"`   // position (1-based) of the returned entry, 0 = none
+	Vid   int    `json:"vid,omitempty"`   // version string id of the returned version, 0 = none
 	Err   string `json:"err,omitempty"`   // returned error
 	Panic string `json:"panic,omitempty"` // recovered panic value
 	Site  string `json:"site,omitempty"`  // first helm frame of the panic
 }
 
+// Obs is what one concretisation of one case showed.  Per-query results are integers:
+// > 0 the position (get, rcv) or version string id (tag, lock) returned, 0 an error was returned,
+// -1 a panic, -2 a value that is none of the case's; the texts of errors that are not the plain
+// "not found" kind and of panics are in Notes.
 type Obs struct {
-	Code    int    `json:"code"`
-	Conc    int    `json:"conc"`
-	Format  string `json:"format"`
-	Load    Res    `json:"load"`
-	Order   []int  `json:"order"`             // positions of the loaded entries, as loaded
-	Get     []Res  `json:"get,omitempty"`     // per query
-	Tag     []Res  `json:"tag,omitempty"`     // per query
-	SortAPI []int  `json:"sortapi,omitempty"` // MustAdd + SortEntries
-	SortErr Res    `json:"sorterr"`
-	Rcv     []Res  `json:"rcv,omitempty"`  // ChartDownloader.ResolveChartVersion per query
-	Lock    []Res  `json:"lock,omitempty"` // Manager.Update -> resolver per query
-	Deep    bool   `json:"deep"`
+	Code    int      `json:"code"`
+	Conc    int      `json:"conc"`
+	Format  string   `json:"format"`
+	Load    Res      `json:"load"`
+	Order   []int    `json:"order"`             // positions of the loaded entries, as loaded
+	Get     []int    `json:"get,omitempty"`     // per query: IndexFile.Get
+	Tag     []int    `json:"tag,omitempty"`     // per query: GetTagMatchingVersionOrConstraint
+	SortAPI []int    `json:"sortapi,omitempty"` // MustAdd + SortEntries
+	SortErr Res      `json:"sorterr"`
+	Rcv     []int    `json:"rcv,omitempty"`  // per query: ChartDownloader.ResolveChartVersion
+	Lock    []int    `json:"lock,omitempty"` // per query: Manager.Update -> resolver
+	Deep    bool     `json:"deep"`
+	Notes   []string `json:"notes,omitempty"`
+}
+
+// put records r as the integer result of query q of route what.
+func (o *Obs) put(list *[]int, what string, q int, r Res, byVid bool) {
+	v := r.Pos
+	if byVid {
+		v = r.Vid
+	}
+	switch {
+	case r.Panic != "":
+		v = -1
+		o.Notes = append(o.Notes, fmt.Sprintf("%s[%d] panic: %s @ %s", what, q+1, r.Panic, r.Site))
+	case r.Err != "":
+		v = 0
+		if strings.HasPrefix(r.Err, "unexpected") {
+			o.Notes = append(o.Notes, fmt.Sprintf("%s[%d] %s", what, q+1, r.Err))
+		}
+	case v <= 0:
+		v = -2
+		o.Notes = append(o.Notes, fmt.Sprintf("%s[%d] returned %q, not an entry of the case", what, q+1, r.Site))
+	}
+	*list = append(*list, v)
 }
 
 const chartName = "dep"
@@ -157,8 +184,8 @@ func errStr(err error) string {
 		return ""
 	}
 	s := err.Error()
-	if len(s) > 300 {
-		s = s[:300]
+	if len(s) > 160 {
+		s = s[:160]
 	}
 	if s == "" {
 		s = "error"
@@ -198,15 +225,15 @@ func (c *ctx) shallow(dir string, cs Case, o *Obs) {
 		}
 	}
 	if idx != nil {
-		for _, q := range c.conc.Queries {
+		for qi, q := range c.conc.Queries {
 			q := q
-			o.Get = append(o.Get, guard(func() Res {
+			o.put(&o.Get, "get", qi, guard(func() Res {
 				cv, err := idx.Get(chartName, q)
 				if err != nil {
 					return Res{Err: errStr(err)}
 				}
-				return Res{Pos: posOfDigest(cv.Digest), Vid: c.vid[cv.Version]}
-			}))
+				return Res{Pos: posOfDigest(cv.Digest), Vid: c.vid[cv.Version], Site: cv.Version}
+			}), false)
 		}
 	}
 	// OCI tag matching over the version strings in the order the specification loads them
@@ -214,15 +241,15 @@ func (c *ctx) shallow(dir string, cs Case, o *Obs) {
 	for _, p := range cs.Loaded {
 		tags = append(tags, c.conc.Strings[c.v.Abs.Kinds[cs.Entries[p-1]-1].Vid-1])
 	}
-	for _, q := range c.conc.Queries {
+	for qi, q := range c.conc.Queries {
 		q := q
-		o.Tag = append(o.Tag, guard(func() Res {
+		o.put(&o.Tag, "tag", qi, guard(func() Res {
 			t, err := registry.GetTagMatchingVersionOrConstraint(tags, q)
 			if err != nil {
 				return Res{Err: errStr(err)}
 			}
-			return Res{Vid: c.vid[t]}
-		}))
+			return Res{Vid: c.vid[t], Site: t}
+		}), true)
 	}
 	// the API route to an unsorted index: MustAdd (validates) then SortEntries
 	o.SortErr = guard(func() Res {
@@ -281,27 +308,36 @@ func (c *ctx) deep(dir string, cs Case, o *Obs) {
 	rf := repo.NewFile()
 	rf.Add(&repo.Entry{Name: "r", URL: repoURL})
 	rf.WriteFile(repoCfg, 0o644)
-	names := []string{chartName}
+	cache1 := filepath.Join(dir, "cache1") // the chart alone: ChartDownloader
+	os.RemoveAll(cache1)
+	os.MkdirAll(cache1, 0o755)
+	os.WriteFile(filepath.Join(cache1, "r-index.yaml"), c.indexBytes(cs, []string{chartName}, (cs.Code+o.Conc)%2 == 1), 0o644)
+	names := []string{}
 	for q := range c.conc.Queries {
 		names = append(names, depName(q))
 	}
-	os.WriteFile(filepath.Join(cache, "r-index.yaml"), c.indexBytes(cs, names, (cs.Code+o.Conc)%2 == 1), 0o644)
+	os.WriteFile(filepath.Join(cache, "r-index.yaml"), c.indexBytes(cs, names, (cs.Code+o.Conc)%2 == 0), 0o644)
 	providers := getter.Providers{{Schemes: []string{"http", "https"}, New: func(...getter.Option) (getter.Getter, error) {
 		return fakeGetter{someArchive(dir)}, nil
 	}}}
-	for _, q := range c.conc.Queries {
+	for qi, q := range c.conc.Queries {
 		q := q
-		o.Rcv = append(o.Rcv, guard(func() Res {
-			dl := downloader.ChartDownloader{Out: io.Discard, Getters: providers, RepositoryConfig: repoCfg, RepositoryCache: cache}
+		o.put(&o.Rcv, "rcv", qi, guard(func() Res {
+			dl := downloader.ChartDownloader{Out: io.Discard, Getters: providers, RepositoryConfig: repoCfg, RepositoryCache: cache1}
 			u, err := dl.ResolveChartVersion("r/"+chartName, q)
 			if err != nil {
 				return Res{Err: errStr(err)}
 			}
-			return Res{Pos: posOfURL(u.String())}
-		}))
+			return Res{Pos: posOfURL(u.String()), Site: u.String()}
+		}), false)
 	}
 	// resolver: one chart whose dependencies d1..dQ carry the queries as version ranges
-	o.Lock = make([]Res, len(c.conc.Queries))
+	lock := make([]Res, len(c.conc.Queries))
+	defer func() {
+		for qi, r := range lock {
+			o.put(&o.Lock, "lock", qi, r, true)
+		}
+	}()
 	update := func(qs []int) (locked map[int]string, res Res) {
 		cdir := filepath.Join(dir, "parent")
 		os.RemoveAll(cdir)
@@ -316,7 +352,7 @@ func (c *ctx) deep(dir string, cs Case, o *Obs) {
 			m := &downloader.Manager{Out: io.Discard, ChartPath: cdir, SkipUpdate: true, Getters: providers,
 				RepositoryConfig: repoCfg, RepositoryCache: cache, Verify: downloader.VerifyNever}
 			if err := m.Update(); err != nil {
-				return Res{Err: errStr(err)}
+				return Res{Err: err.Error() + " "}
 			}
 			return Res{}
 		})
@@ -346,16 +382,16 @@ func (c *ctx) deep(dir string, cs Case, o *Obs) {
 		} else { // a range that does not parse fails the whole resolution: one run each
 			_, r := update([]int{q})
 			if r.Err == "" && r.Panic == "" {
-				r = Res{Vid: -1} // resolved although the range is not a constraint
+				r = Res{Vid: -1, Site: "a lock for a range that is not a constraint"}
 			}
-			o.Lock[q] = r
+			lock[q] = r
 		}
 	}
 	for pass := 0; pass < 2 && len(good) > 0; pass++ {
 		locked, r := update(good)
 		if r.Panic != "" {
 			for _, q := range good {
-				o.Lock[q] = r
+				lock[q] = r
 			}
 			return
 		}
@@ -364,7 +400,7 @@ func (c *ctx) deep(dir string, cs Case, o *Obs) {
 			full := r.Err
 			if len(ms) == 0 || pass == 1 {
 				for _, q := range good {
-					o.Lock[q] = Res{Err: "unexpected: " + full}
+					lock[q] = Res{Err: "unexpected: " + errStr(fmt.Errorf("%s", full))}
 				}
 				return
 			}
@@ -377,7 +413,7 @@ func (c *ctx) deep(dir string, cs Case, o *Obs) {
 			var rest []int
 			for _, q := range good {
 				if miss[q] {
-					o.Lock[q] = Res{Err: "no version satisfies"}
+					lock[q] = Res{Err: "no version satisfies"}
 				} else {
 					rest = append(rest, q)
 				}
@@ -388,14 +424,14 @@ func (c *ctx) deep(dir string, cs Case, o *Obs) {
 		for _, q := range good {
 			v, ok := locked[q]
 			if !ok {
-				o.Lock[q] = Res{Err: "unexpected: dependency missing from Chart.lock"}
+				lock[q] = Res{Err: "unexpected: dependency missing from Chart.lock"}
 				continue
 			}
 			vid := c.vid[v]
 			if vid == 0 {
 				vid = -1
 			}
-			o.Lock[q] = Res{Vid: vid, Site: v}
+			lock[q] = Res{Vid: vid, Site: v}
 		}
 		return
 	}
@@ -412,6 +448,7 @@ func cmdRun(args []string) error {
 	seed := fs.Int64("seed", 1, "seed")
 	workers := fs.Int("workers", 8, "parallel workers")
 	tmp := fs.String("tmp", "", "scratch directory")
+	deepAll := fs.Bool("deep-all", false, "every concretisation goes through the downloader and the resolver (replay)")
 	fs.Parse(args)
 	slog.SetDefault(slog.New(slog.NewTextHandler(io.Discard, nil)))
 	var v Vocab
@@ -483,7 +520,7 @@ func cmdRun(args []string) error {
 					o := Obs{Code: cs.Code, Conc: ci}
 					c.shallow(dir, cs, &o)
 					if len(cs.Entries) <= *deepLen || deepPick[i] {
-						if ci == (cs.Code % len(v.Concs)) {
+						if *deepAll || ci == (cs.Code%len(v.Concs)) {
 							c.deep(dir, cs, &o)
 						}
 					}
